@@ -859,11 +859,11 @@ pub fn run(tier: Tier, seed: u64) -> ! {
     rep.rule = "random histories on an on-disk GrafeoDB: every mutating direct-API call (create/delete node and edge, with props, set/remove property with every value type, add/remove label, batch_create_nodes), mutating statements through sessions (auto-commit and explicit transactions), interleaved with wal_checkpoint(), wal().rotate(), wal().sync(), size-triggered rotation (threshold override hook from 'every record' upward) and 1-4 close/reopen cycles, under each durability mode (sync, batch with tiny thresholds, adaptive, no-sync). After every reopen the dump is compared with the persistent model; new identifiers must not collide. non-trivial = history with >= 1 reopen preceded by a checkpoint or rotation and >= 3 op kinds; distinct by hash of the operation list".into();
     let rules = Rules::from_findings(&rep.findings);
     rep.extra.insert("deviation_rules_on".into(), json!(format!("{rules:?}")));
-    let n = tier.pick(250, 4_000);
+    let n = tier.pick(500, 4_000);
     for case in 0..n {
         run_history(&mut rep, rules, seed, case, tier.pick(25, 60));
     }
-    for case in 0..tier.pick(60, 1_500) {
+    for case in 0..tier.pick(150, 1_500) {
         saved_copy_history(&mut rep, seed, case);
     }
     rep.assumptions = vec![
